@@ -11,16 +11,17 @@ from .. import common
 from ..gen import netgen, net3ph
 
 PROPERTY = "C11"
-READY = False
-NOT_READY_REASON = "under construction"
+READY = True
 LEVEL = "exploration"
 TECHNIQUE = ("runtime monitoring: runpp_3ph result tables of seeded random networks judged by (a) re-execution with the symmetric "
              "runpp on balanced inputs and (b) an independent per-phase Kirchhoff balance with wye/delta constant-power load models")
 CASES = {"quick": 1600, "thorough": 40000}
 BUDGET = {"quick": 60, "thorough": 1200}
-FLOORS = {"quick": {"nontrivial": 600, "tags": {"balanced": 300, "unbalanced": 300, "vg:Dyn": 100, "vg:YNyn": 50, "vg:Yzn": 50,
-                                                "delta": 200, "wye_asym": 200, "asym_sgen": 100, "two_levels": 100, "meshed": 50},
-                    "extras": {"bal_bus_cmp": 2000, "bal_branch_cmp": 2000, "balance_bus_phase": 10000}, "max_skip_frac": 0.2},
+FLOORS = {"quick": {"nontrivial": 750, "tags": {"balanced": 350, "unbalanced": 400, "vg:Dyn": 300, "vg:YNyn": 150, "vg:Yzn": 150,
+                                                "delta": 700, "wye_asym": 600, "asym_sgen": 500, "two_levels": 500, "meshed": 250,
+                                                "two_ext_grids": 50, "open_line_switch": 50},
+                    "extras": {"bal_bus_cmp": 12000, "bal_branch_cmp": 15000, "balance_bus_phase": 10000, "elem_rows": 6000},
+                    "max_skip_frac": 0.2},
           "thorough": {"nontrivial": 15000, "tags": {"balanced": 8000, "unbalanced": 8000, "vg:Yzn": 1000, "delta": 5000},
                        "extras": {"balance_bus_phase": 250000}, "max_skip_frac": 0.2}}
 RULE = ("seeded random 1-3 level networks (110/20/10/0.4 kV) with zero-sequence line data, Dyn/YNyn/Yzn transformers with zero-sequence "
@@ -30,7 +31,7 @@ RULE = ("seeded random 1-3 level networks (110/20/10/0.4 kV) with zero-sequence 
 ASSUMPTIONS = ["both power flows run with tolerance_mva = 1e-10*sn_mva (option documented for both); balanced comparison bounds: "
                "1e-6 p.u., 1e-4 deg, 1e-6*sn_mva + 1e-6*|S| MVA",
                "runpp_3ph stops its sequence iteration on a hard-coded 3e-8 p.u. positive-sequence mismatch: per-phase nodal balance "
-               "bound 1e-4*sn_mva + 1e-6*sum|S| MVA (>= 30x the worst residual measured on the unchanged tree)",
+               "bound 1e-4*sn_mva + 1e-6*sum|S| MVA (20x the worst residual measured on 5 100 cases of the unchanged tree)",
                "delta elements: p_a/q_a = power of the branch a-b (b-c, c-a); terminal powers computed from the reported phase voltages",
                "branches that are NaN in res_*_3ph and 0/NaN in res_* (de-energized) are not compared; NaN conventions belong to C07",
                "non-convergence is skipped (bounded by max_skip_frac); any other exception of runpp_3ph on these documented inputs is a violation"]
@@ -220,8 +221,6 @@ def check_nodal_balance(net, extra):
         bound = 1e-4 * sn + 1e-6 * scale
         err = np.where(np.isfinite(np.abs(m)), np.abs(m), np.inf)
         extra["balance_bus_phase"] += 3
-        if b not in slack:
-            extra["stat_balance_rel_max"] = max(extra.get("stat_balance_rel_max", 0.), (err / bound).max())
         if (err <= bound).all():
             continue
         mechs = [None]
@@ -328,8 +327,6 @@ def check_balanced(net, base, tol, extra):
         dv = np.abs(r3["vm_%s_pu" % p].values - rb.vm_pu.values)
         da = np.abs(_angle_diff(r3["va_%s_degree" % p].values, rb.va_degree.values + SHIFT[p]))
         extra["bal_bus_cmp"] += int(e1.sum())
-        extra["stat_bal_dv_max"] = max(extra.get("stat_bal_dv_max", 0.), dv[e1].max())
-        extra["stat_bal_da_max"] = max(extra.get("stat_bal_da_max", 0.), da[e1].max())
         for i in np.flatnonzero(e1 & ~((dv <= 1e-6) & (da <= 1e-4))):
             bad.append((max(dv[i] / 1e-6, da[i] / 1e-4), "bus %s phase %s: vm %.9f / va %.6f deg, runpp vm %.9f / va%+g = %.6f deg" % (
                 rb.index[i], p, r3["vm_%s_pu" % p].values[i], r3["va_%s_degree" % p].values[i], rb.vm_pu.values[i], SHIFT[p],
@@ -343,8 +340,6 @@ def check_balanced(net, base, tol, extra):
             extra["bal_branch_cmp" if tab != "bus" else "bal_bus_cmp"] += int(live.sum())
             d = np.abs(a - b)
             rel = np.where(np.isnan(d), np.inf, d) / (1e-6 * sn + 1e-6 * np.abs(np.nan_to_num(b)))
-            if live.any() and tab in ("line", "trafo"):
-                extra["stat_bal_ds_rel_max"] = max(extra.get("stat_bal_ds_rel_max", 0.), rel[live].max())
             for i in np.flatnonzero(live & (rel > 1.)):
                 bad.append((rel[i], "3*res_%s_3ph.%s = %.9g but runpp %s = %.9g (row %s)" % (tab, c3 % p, a[i], c1, b[i], net[tab].index[i]),
                             tab, net[tab].index[i]))
@@ -357,9 +352,8 @@ def check_balanced(net, base, tol, extra):
         bad = [x for x in bad if x not in sl_rows]
     if bad:
         bad.sort(key=lambda x: -x[0])
-        mech = "runpp_all_slack_bypass_drops_angles" if _bypass_explains(net, base) else None
         viols.append(common.viol("balanced network: runpp_3ph disagrees with runpp: %s (%d differing quantities in %s)" % (
-            bad[0][1], len(bad), sorted(set(x[2] for x in bad))), mechanism=mech, differing=[x[1] for x in bad[:6]]))
+            bad[0][1], len(bad), sorted(set(x[2] for x in bad))), differing=[x[1] for x in bad[:6]]))
     return viols
 
 
@@ -379,15 +373,3 @@ def _slack_load_explains(net, base):
                 return False
         seen = seen or abs(cons) > 0
     return seen
-
-
-def _bypass_explains(net, base):
-    """every energized bus carries an ext_grid: runpp bypasses its solver and reports angle 0 although set-points are not 0,
-    while runpp_3ph reports the set-points"""
-    r3 = net.res_bus_3ph
-    sup = set(int(b) for b in r3.index[r3.vm_a_pu.notna()])
-    eg = net.ext_grid[net.ext_grid.in_service]
-    if not sup or not sup <= set(int(b) for b in eg.bus.values):
-        return False
-    set_ok = all(abs(_angle_diff(r3.va_a_degree.at[b], va)) < 1e-9 for b, va in zip(eg.bus.values, eg.va_degree.values))
-    return bool(set_ok and (eg.va_degree.values != 0).any() and (base.res_bus.va_degree.loc[eg.bus.values].values == 0).all())
